@@ -24,7 +24,10 @@ func init() {
 		ts := concTemplates()
 		idx := intsFromExtra(rp.Extra["templates"])
 		if len(idx) == 0 {
-			return false, "no templates recorded"
+			return false, "no templates recorded (race-pass findings are re-checked by running ./check C18)"
+		}
+		for i, t := range ts {
+			seqResults[i] = t.run()
 		}
 		var got string
 		eng.ReplayChoices(func(c *eng.Chooser) { got = runScheduled(ts, idx, c).verdict }, rp.Choices)
@@ -67,7 +70,11 @@ func concTemplates() []concTemplate {
 		{"Valid(doc,nil)", func() string { return f("%v", rjson.Valid(inDoc, nil)) }},
 		{"Valid(doc2,buf)", func() string { var b rjson.Buffer; return f("%v %v", rjson.Valid(inDoc2, &b), rjson.Valid(inDeep, &b)) }},
 		{"SkipValue(doc2,nil)", func() string { p, err := rjson.SkipValue(inDoc2, nil); return f("%d %v", p, err) }},
-		{"SkipValueFast(doc2,buf)", func() string { var b rjson.Buffer; p, err := rjson.SkipValueFast(inDoc2, &b); return f("%d %v", p, err) }},
+		{"SkipValueFast(doc2,buf)", func() string {
+			var b rjson.Buffer
+			p, err := rjson.SkipValueFast(inDoc2, &b)
+			return f("%d %v", p, err)
+		}},
 		{"SkipValueFast(doc3,nil)", func() string { p, err := rjson.SkipValueFast(inDoc3, nil); return f("%d %v", p, err) }},
 		{"ReadValue(doc)", func() string { v, p, err := rjson.ReadValue(inDoc); return f("%v %d %v", v, p, err) }},
 		{"ReadValue(doc3)", func() string { v, p, err := rjson.ReadValue(inDoc3); return f("%q %d %v", v, p, err) }},
@@ -95,10 +102,22 @@ func concTemplates() []concTemplate {
 			p, err := rjson.HandleObjectValues(inDoc, &vr, nil)
 			return f("%d %v", p, err)
 		}},
-		{"ReadFloat64(exact)", func() string { v, p, err := rjson.ReadFloat64(inFloatF); return f("%x %d %v", math.Float64bits(v), p, err) }},
-		{"ReadFloat64(eisel-lemire)", func() string { v, p, err := rjson.ReadFloat64(inFloatEL); return f("%x %d %v", math.Float64bits(v), p, err) }},
-		{"ReadFloat64(slow-1)", func() string { v, p, err := rjson.ReadFloat64(inFloatS1); return f("%x %d %v", math.Float64bits(v), p, err) }},
-		{"ReadFloat64(slow-2)", func() string { v, p, err := rjson.ReadFloat64(inFloatS2); return f("%x %d %v", math.Float64bits(v), p, err) }},
+		{"ReadFloat64(exact)", func() string {
+			v, p, err := rjson.ReadFloat64(inFloatF)
+			return f("%x %d %v", math.Float64bits(v), p, err)
+		}},
+		{"ReadFloat64(eisel-lemire)", func() string {
+			v, p, err := rjson.ReadFloat64(inFloatEL)
+			return f("%x %d %v", math.Float64bits(v), p, err)
+		}},
+		{"ReadFloat64(slow-1)", func() string {
+			v, p, err := rjson.ReadFloat64(inFloatS1)
+			return f("%x %d %v", math.Float64bits(v), p, err)
+		}},
+		{"ReadFloat64(slow-2)", func() string {
+			v, p, err := rjson.ReadFloat64(inFloatS2)
+			return f("%x %d %v", math.Float64bits(v), p, err)
+		}},
 		{"ReadValue(overflow)", func() string { v, p, err := rjson.ReadValue(inFloatOv); return f("%v %d %v", v, p, err != nil) }},
 		{"ReadInt64/32/Int", func() string {
 			a, p1, e1 := rjson.ReadInt64(inInt)
@@ -112,10 +131,20 @@ func concTemplates() []concTemplate {
 			c, p3, e3 := rjson.ReadUint(inUint)
 			return f("%d %d %v %d %d %v %d %d %v", a, p1, e1, b, p2, e2 != nil, c, p3, e3)
 		}},
-		{"ReadString(esc,scratch)", func() string { var sc []byte; v, p, err := rjson.ReadString(inStrEsc, &sc); return f("%q %d %v", v, p, err) }},
+		{"ReadString(esc,scratch)", func() string {
+			var sc []byte
+			v, p, err := rjson.ReadString(inStrEsc, &sc)
+			return f("%q %d %v", v, p, err)
+		}},
 		{"ReadStringBytes(pair1)", func() string { v, p, err := rjson.ReadStringBytes(inStrPair1, nil); return f("%q %d %v", v, p, err) }},
-		{"ReadStringBytes(pair2)", func() string { v, p, err := rjson.ReadStringBytes(inStrPair2, make([]byte, 0, 64)); return f("%q %d %v", v, p, err) }},
-		{"UnescapeStringContent", func() string { v, p, err := rjson.UnescapeStringContent(inStrPair1[1:len(inStrPair1)-1], nil); return f("%q %d %v", v, p, err) }},
+		{"ReadStringBytes(pair2)", func() string {
+			v, p, err := rjson.ReadStringBytes(inStrPair2, make([]byte, 0, 64))
+			return f("%q %d %v", v, p, err)
+		}},
+		{"UnescapeStringContent", func() string {
+			v, p, err := rjson.UnescapeStringContent(inStrPair1[1:len(inStrPair1)-1], nil)
+			return f("%q %d %v", v, p, err)
+		}},
 		{"ReadBool/ReadNull", func() string {
 			v, p, e := rjson.ReadBool(inLit)
 			p2, e2 := rjson.ReadNull(inNull)
